@@ -84,12 +84,12 @@ def register(reg):
     pred("HCT_Stops", "A, path",
          "all(path[k].children is not None and path[k].visited_times >= A.tau_h[k] for k in range(len(path) - 1)) "
          "and (path[len(path) - 1].children is None or path[len(path) - 1].visited_times < A.tau_h[len(path) - 1])")
-    fn("HCT.optTraverse", N=N, props="C01 C05 C06", params={}, returns="tuple[ref:$N,list[ref:$N]]", reveal=["htau"],
+    fn("HCT.optTraverse", N=N, props="C01 C04 C05 C06", params={}, returns="tuple[ref:$N,list[ref:$N]]", reveal=["htau"],
        requires=INV, modifies=["self.tau_h"],
        ensures=[("taus", TAUS, "C06"),
                 ("path", "fresh(result[1]) and PathOK(self.partition, result[1])", "C05 C04"),
                 ("end", "result[0] is result[1][len(result[1]) - 1] and result[1][0] is self.partition.root", "C05"),
-                ("stops", "HCT_Stops(self, result[1])", "C05 C06"),
+                ("stops", "HCT_Stops(self, result[1])", "C04 C05 C06"),
                 ("greedy", "Greedy(result[1])", "C05")])
     loop("HCT.optTraverse", 0, props="C06", var="i", modifies=["list(self.tau_h)"],
          invariants=[("taus", "defined(self.tau_h) and fresh(self.tau_h) and len(self.tau_h) == i and self.tau_h[0] == 0 "
@@ -100,7 +100,7 @@ def register(reg):
          invariants=[("taus", TAUS),
                      ("path", "fresh(path) and PathOK(self.partition, path) and path[len(path) - 1] is curr_node "
                               "and path[0] is self.partition.root"),
-                     ("passed", "all(path[k].children is not None and path[k].visited_times >= self.tau_h[k] for k in range(len(path) - 1))"),
+                     ("passed", "all(path[k].children is not None and path[k].visited_times >= self.tau_h[k] for k in range(len(path) - 1))", "C04 C05 C06"),
                      ("greedy", "Greedy(path)")])
     loop("HCT.optTraverse", 2, props="C05", modifies=[],
          invariants=[("kids", "children is curr_node.children and children is not None"),
@@ -124,6 +124,16 @@ def register(reg):
                       ("end", "self.curr_node is self.path[len(self.path) - 1] and self.path[0] is self.partition.root", "C05"),
                       ("stops", "HCT_Stops(self, self.path)", "C05 C06"),
                       ("greedy", "Greedy(self.path)", "C05"),
+                      ("result", "result is self.curr_node.c_point", "C01 C04")])
+    # get_last_point is pull(0): it rewrites the pending (path, curr_node) that the next receive_reward credits, so it must
+    # leave the path the selection rule determines (which is unique for a given state)
+    fn("HCT.get_last_point", N=N, props="C01 C04 C05 C15", params={}, returns="list[real]",
+       requires=INV, modifies=["self.path", "self.curr_node", "self.tau_h"],
+       ensures=INV + [("taus", TAUS, "C06"),
+                      ("path", "defined(self.path) and defined(self.curr_node) and fresh(self.path) and PathOK(self.partition, self.path)", "C04 C05"),
+                      ("end", "self.curr_node is self.path[len(self.path) - 1] and self.path[0] is self.partition.root", "C05"),
+                      ("stops", "HCT_Stops(self, self.path)", "C04 C05 C06"),
+                      ("greedy", "Greedy(self.path)", "C04 C05"),
                       ("result", "result is self.curr_node.c_point", "C01 C04")])
 
     # ---------------------------------------------------------------- updateAllTree / receive_reward (C03 C04 C05 C06)
